@@ -151,6 +151,19 @@ def run_case(case: dict) -> CaseResult:
                             viol.append(V(f"c19:call-while-connecting:raised:{type(e).__name__}", f"{name} raised {e!r} instead of an APIConnectionError"))
                         if sum(tr.n_writes for tr in env.transports) != n_wr:
                             viol.append(V("c19:wrote-while-connecting", f"{name} wrote to the transport while {main_name} was still running"))
+                    # ... and a second connect attempt while this one is in progress is refused at once, touching nothing
+                    if not t.done():
+                        n_conn, n_tcp = len(env.conns), len(env.tcp_calls)
+                        stage = env.conns[-1].connection_state.name if env.conns else "none"
+                        st2 = asyncio.Task(cli.start_connection(), loop=env.loop, eager_start=True)
+                        if not st2.done():
+                            st2.cancel()
+                            viol.append(V(f"c19:second-start-accepted-while-attempt-in-progress:{stage}", f"start_connection() did not fail at once while {main_name} was still running (connection state {stage})"))
+                        elif st2.cancelled() or not isinstance(st2.exception(), APIConnectionError):
+                            viol.append(V(f"c19:second-start-while-attempt-in-progress:{type(st2.exception()).__name__ if not st2.cancelled() else 'cancelled'}", f"state {stage}"))
+                        if (len(env.conns), len(env.tcp_calls)) != (n_conn, n_tcp):
+                            viol.append(V(f"c19:second-start-disturbed-attempt:{stage}", f"connections {n_conn}->{len(env.conns)}, TCP attempts {n_tcp}->{len(env.tcp_calls)}"))
+                        classes.add("second_start_probe:" + stage)
                     return "probed"
                 if w == "cancel":
                     if not t.done():
